@@ -83,6 +83,12 @@ func scalarIs(s *secp256k1.Scalar, v *big.Int) (bool, string) {
 		return false, fmt.Sprintf("Encode=%x want %x", enc, ref.Bytes32(v))
 	}
 
+	// the stored limbs themselves must be the Montgomery form of v (an encoder that answers from a memo could
+	// otherwise hide a wrong or stale value)
+	if s.S != ref.Mont(v, ref.N) {
+		return false, fmt.Sprintf("stored limbs %x are not the representation of %x", s.S, v)
+	}
+
 	return true, ""
 }
 
